@@ -205,6 +205,9 @@ def reprFileAlg (cls : Cls) (fname : Str) (len pos : Nat) : Str :=
 def evalFileRepr (file : Bits) (n : Nat) : Except Err Bits :=
   if n > file.length then .error .value else .ok (file.take n)
 
+/-- Region of the known finding `file-repr-after-mutation` (same name in `REGIONS` of harness/props/C19.py). -/
+def file_repr_after_mutation (m : FileMut) : Bool := m != .none
+
 /-! ## SPEC: the meaning of a literal initialiser string (`Bits('0x1f, 0b101')`)
 
   `str_to_bitstore` (bitstore_helpers.py:28) → `utils.tokenparser` → `preprocess_tokens`: all whitespace removed,
@@ -663,6 +666,9 @@ def arrayRepr (k : Kind) (n : Nat) (data : Bits) : Str :=
   let final : Str := if t = 0 then [] else
     ", trailing_bits=".toList ++ reprFormAlg false .bitArray (data.drop (data.length - t)) 0
   "Array('".toList ++ dt ++ "', ".toList ++ listStr ++ final ++ [')']
+
+/-- Region of the known finding `array-long-trailing` (same name in `REGIONS` of harness/props/C19.py). -/
+def array_long_trailing (n : Nat) (data : Bits) : Bool := decide (data.length % n > 4 * Gen.maxChars)
 
 /-! ## driver -/
 
